@@ -28,7 +28,7 @@ def shards(tier):
 
 
 def timeout(tier):
-    return 900 if tier == "quick" else 5400
+    return 1800 if tier == "quick" else 14400
 
 
 def floors(tier):
